@@ -260,6 +260,20 @@ def run(repo, rep, tier):
             if got != exp:
                 ok = False
     rep.ob("C20.R4", sv, "header row first (unless --no-header), then the data rows in order", ok, "" if ok else f"the grid is built as {segs}", key="C20.R4@save:header-first")
+    # the table the grid is written into starts no larger than the grid (writing only ever grows a table)
+    docs = [c for c in body_walk(sv) if isinstance(c, ast.Call) and call_name(c) == "Document"]
+    big = []
+    for c in docs:
+        for kw in c.keywords:
+            if kw.arg in ("num_rows", "num_cols"):
+                v = try_const(kw.value, default=None)
+                if isinstance(v, int) and v > 1:
+                    big.append(f"{kw.arg}={v}")
+        if not any(kw.arg == "num_rows" for kw in c.keywords) or not any(kw.arg == "num_cols" for kw in c.keywords):
+            big.append("default size")
+    okd = len(docs) == 1 and not big
+    rep.ob("C20.R4", docs[0] if docs else sv, "the document written starts no larger than the grid", okd,
+           "" if okd else f"Document({', '.join(big)}) is larger than a small grid and cells are only ever added: a 1x1 CSV comes back as {big[0] if big else '?'} with empty cells", key="C20.R4@save:no-padding")
     ok = "doc.save(self.output_filename)" in s
     rep.ob("C20.R4", sv, "document saved to the requested output", ok, "", key="C20.R4@save:output")
     # --reverse: the list of data rows is reversed exactly when the option is set (any of the usual spellings)
@@ -327,6 +341,7 @@ def _anc(n):
 
 
 VARIANTS = [
+    M("revert-fix-two-by-two-start", "_csv2numbers.py", "        doc = Document(num_rows=num_rows, num_cols=num_cols)", "        doc = Document(num_rows=2, num_cols=2)", "C20.R4"),
     M("revert-fix-csv-newline", "_csv2numbers.py", 'with open(self.input_filename, encoding=self.encoding, newline="") as csvfile:', "with open(self.input_filename, encoding=self.encoding) as csvfile:", "C20.R2"),
     M("csv-opened-in-default-encoding", "_csv2numbers.py", 'with open(self.input_filename, encoding=self.encoding, newline="") as csvfile:', 'with open(self.input_filename, newline="") as csvfile:', "C20.R2"),
     M("revert-fix-nonfinite", "_csv2numbers.py", "                        number = float(v.replace(\",\", \"\"))\n                        # nan, inf and overflowing exponents are text, not numbers\n                        if math.isfinite(number):\n                            row[k] = number",
